@@ -191,7 +191,11 @@ def run_asan(prop, fam, nh, maxops, seed, rundir):
         res.update(crashed=True, crashed_in=None, harness_out='unreadable statistics file under ASan: %s' % e)
     return res
 
-def run_family(prop, fam, nh, maxops, seed, profile, aspects, rundir, tag='', budget_s=None):
+# properties for which 'a read-only view of some map disagrees with the reference or with another
+# view' is a failing input of the property itself (used only while searching for a failing input)
+PROBE_PROPS = ('C01', 'C08', 'C12', 'C14')
+
+def run_family(prop, fam, nh, maxops, seed, profile, aspects, rundir, tag='', budget_s=None, probe=False):
     exe = os.path.join(TARGET, 'release' if profile == 'release' else 'debug', 'gharness')
     base = os.path.join(rundir, f'{fam}{tag}.{profile}')
     # a hang (e.g. hashbrown probing a table that has no empty slot left) must not stall the check
@@ -200,7 +204,8 @@ def run_family(prop, fam, nh, maxops, seed, profile, aspects, rundir, tag='', bu
     res = dict(family=fam, profile=profile, histories=nh, seed=seed, trace=base + '.trace', maxops=maxops)
     try:
         code, out = sh([exe, '--seed', str(seed), '--histories', str(nh), '--family', fam, '--maxops', str(maxops),
-                        '--out', base + '.trace', '--stats', base + '.json', '--progress', base + '.progress'], timeout=budget_s)
+                        '--out', base + '.trace', '--stats', base + '.json', '--progress', base + '.progress']
+                       + (['--probe', prop] if probe and prop in PROBE_PROPS and fam not in ('set', 'parset', 'serset', 'zst') else []), timeout=budget_s * (3 if probe else 1))
     except subprocess.TimeoutExpired:
         code, out = -9, f'no result after {budget_s}s (hang)'
     res['harness_exit'] = code
@@ -385,17 +390,24 @@ def main():
                            f"the real crate hung, aborted or crashed while running history {r.get('crashed_in')} ({r['profile']} build): {r['harness_out']}", None))
 
     # extended search when the proof or the correspondence is broken but no monitor fired
-    if (problems or diffs) and not viols and not crashed and okt:
-        for (fam, nq, nt, maxops) in cfg['families']:
+    if (problems or diffs) and not [v for (_, v) in viols if not is_known(v['what'])] and not crashed and okt:
+        # first the histories on which the correspondence broke, every map looked at through every
+        # read-only view after every call
+        if diffs and prop in PROBE_PROPS:
+            r0 = diffs[0][0]
+            r = run_family(prop, r0['family'], r0['histories'], r0['maxops'], r0['seed'], r0['profile'], cfg['aspects'], rundir, tag='.probe', probe=True)
+            runs.append(r)
+            viols += [(r, v) for v in r['viol']]
+        for (fam, nq, nt, maxops) in ([] if [v for (_, v) in viols if not is_known(v['what'])] else cfg['families']):
             if fam == 'big':
                 continue
             for profile in cfg['profiles']:
-                r = run_family(prop, fam, (nq if tier == 'quick' else nt) * 6, maxops, seed + 7919, profile, cfg['aspects'], rundir, tag='.ext')
+                r = run_family(prop, fam, (nq if tier == 'quick' else nt) * 6, maxops, seed + 7919, profile, cfg['aspects'], rundir, tag='.ext', probe=True)
                 runs.append(r)
                 viols += [(r, v) for v in r['viol']]
-                if viols:
+                if [v for (_, v) in viols if not is_known(v['what'])]:
                     break
-            if viols:
+            if [v for (_, v) in viols if not is_known(v['what'])]:
                 break
 
     for (r, v) in viols:
